@@ -443,7 +443,7 @@ pub fn env_strategy() -> impl Strategy<Value = EnvCase> {
         1..4,
     );
     let op = prop_oneof![56 => frame.prop_map(Op::Frame), 4 => time_const().prop_map(Op::SetAttack), 4 => time_const().prop_map(Op::SetRelease), 1 => Just(Op::SetAttackInf), 1 => Just(Op::SetReleaseInf)];
-    (0usize..7, prop_oneof![1 => Just(Det::PeakFull), 1 => Just(Det::PeakPos), 1 => Just(Det::PeakNeg), 1 => (1usize..=32).prop_map(Det::Rms)], time_const(), time_const(), proptest::collection::vec(op, 1..400), 0usize..4, any::<bool>(), 0usize..64)
+    (0usize..7, prop_oneof![1 => Just(Det::PeakFull), 1 => Just(Det::PeakPos), 1 => Just(Det::PeakNeg), 1 => (1usize..=32).prop_map(Det::Rms)], time_const(), time_const(), proptest::collection::vec(op, 1..400), 0usize..5, any::<bool>(), 0usize..64)
         .prop_map(|(f, det, attack, release, mut ops, profile, adaptor, inf)| {
             // profiles: plain, burst then silence (long release), constant input (monotone approach)
             let n = ops.len();
@@ -452,6 +452,8 @@ pub fn env_strategy() -> impl Strategy<Value = EnvCase> {
                     match profile {
                         1 if i > n / 3 => v.iter_mut().for_each(|x| *x *= 1e-3),
                         2 => v.iter_mut().for_each(|x| *x = 0.7),
+                        // float frame types only (FTS[0], FTS[1]): amplitudes up to 4 (any finite input)
+                        4 if f < 2 => v.iter_mut().for_each(|x| *x *= 4.0),
                         _ => {}
                     }
                 }
